@@ -53,6 +53,15 @@ def CtxLinked (nodes : List Int) (n : Nat) : Int → Ctx → Prop
     i + 1 < n ∧ nAt nodes i 1 = l.ptr ∧ nAt nodes i 2 = c ∧ (0 ≤ c → l.ptr ≠ c) ∧ nAt nodes i 3 = ctxPar rest ∧
       Linked nodes n (i : Int) l ∧ CtxLinked nodes n (i : Int) rest
 
+theorem ctxPar_cons (fr : Fr) (rest : Ctx) : ctxPar (fr :: rest) = (fr.idx : Int) := by cases fr <;> rfl
+
+theorem CtxLinked.step {nodes : List Int} {n : Nat} {c : Int} {fr : Fr} {rest : Ctx}
+    (h : CtxLinked nodes n c (fr :: rest)) :
+    fr.idx + 1 < n ∧ nAt nodes fr.idx 3 = ctxPar rest ∧ CtxLinked nodes n (fr.idx : Int) rest := by
+  cases fr with
+  | L p pr => exact ⟨h.1, h.2.2.2.2.1, h.2.2.2.2.2.2⟩
+  | R pl p => exact ⟨h.1, h.2.2.2.2.1, h.2.2.2.2.2.2⟩
+
 theorem Sh.ptr_mem : ∀ (sh : Sh) (j : Nat), sh.ptr = (j : Int) → j ∈ sh.idxs := by
   intro sh j h
   cases sh with
